@@ -138,6 +138,46 @@ fn lifetime_multi(n: usize, installs: &[Vec<bool>], by_panic: bool) -> (Vec<Stri
     (outs, ex)
 }
 
+/// The installation window: while `will_execute` runs, a helper thread calls the target (with a
+/// matching argument) at every heap allocation the installing thread makes -- at those points the
+/// installer is parked in the allocator, so the entry is either still original or completely
+/// patched.  Calls served by the original function never reached the fake and are left out; the
+/// others are matching calls like any other and belong to the count.  Afterwards the installing
+/// thread makes `later` more matching calls.  Reported as a two-thread `cnt` line.
+fn lifetime_window(n: usize, total: usize) -> (String, String, String) {
+    use crate::winalloc::{ARMED, DONE, REQ};
+    use std::sync::atomic::{AtomicBool, Ordering};
+    let stop = Arc::new(AtomicBool::new(false));
+    let st = stop.clone();
+    let helper = std::thread::spawn(move || {
+        let mut res = String::new();
+        loop {
+            if REQ.load(Ordering::SeqCst) > DONE.load(Ordering::SeqCst) {
+                res.push(one_call(true));
+                DONE.fetch_add(1, Ordering::SeqCst);
+            } else if st.load(Ordering::SeqCst) {
+                break;
+            } else {
+                std::thread::yield_now();
+            }
+        }
+        res
+    });
+    let mut inj = InjectorPP::new();
+    let pair = mk(n);
+    let fp = shadow::func!(fn (target)(i32) -> i32);
+    ARMED.with(|a| a.set(true));
+    inj.when_called(fp).will_execute(pair);
+    ARMED.with(|a| a.set(false));
+    stop.store(true, Ordering::SeqCst);
+    let early_all = helper.join().unwrap();
+    let early: String = early_all.chars().filter(|&c| c != '?').collect();
+    let served = early.len();
+    let later: String = (0..total.saturating_sub(served)).map(|_| one_call(true)).collect();
+    let ex = exit_class(quiet_catch(std::panic::AssertUnwindSafe(move || drop(inj))));
+    (early, later, ex)
+}
+
 fn script_str(s: &[bool]) -> String {
     if s.is_empty() {
         return "-".into();
@@ -181,6 +221,15 @@ pub fn run(a: &Args, out: &mut impl Write) {
         let ss: Vec<String> = scripts.iter().map(|s| script_str(s)).collect();
         let os: Vec<String> = outs.iter().map(|o| if o.is_empty() { "-".to_string() } else { o.clone() }).collect();
         writeln!(out, "cnt {} {} {} | {} exit={}", n, t, ss.join("/"), os.join("/"), ex).unwrap();
+    }
+    // ---- C06: matching calls that arrive while the installation is still running
+    for n in 1..=3usize {
+        for total in [n, n + 1] {
+            let (early, later, ex) = lifetime_window(n, total);
+            let sc = |o: &str| if o.is_empty() { "-".to_string() } else { "m".repeat(o.len()) };
+            let os = |o: &str| if o.is_empty() { "-".to_string() } else { o.to_string() };
+            writeln!(out, "cntwin {} 2 {}/{} | {}/{} exit={}", n, sc(&early), sc(&later), os(&early), os(&later), ex).unwrap();
+        }
     }
     {
         // 16-thread hammer on one site (short in the quick tier): a non-atomic counter update
